@@ -158,7 +158,7 @@ let do_deallocall (i : inst) : unit =
   | Stack (_, s) -> s := stack_deallocall !s
   | Aligned (_, s) -> s := aligned_deallocall !s
   | Pool (c, s) -> s := pool_deallocall c !s
-  | Heap (_, s, a, _) -> s := hp_deallocall !s; a := ha_deallocall !a
+  | Heap (c, s, a, _) -> s := unres (hp_deallocall c !s); a := ha_deallocall !a
 
 let do_reset (i : inst) : unit =
   match i with
